@@ -295,6 +295,8 @@ def run_kernel(case, tensors, flow, counts=None, abort_at=None, expect=None, hoo
             if abort_at is not None and cnt.steps == abort_at:
                 raise BodyAbort(f"body raised at step {cnt.steps}")
             cnt.body(v)
+            if hook is not None:
+                hook("body", {"rank": v, "point": point, "coord": c})
             if exp is not None:
                 exp["iter"].append(c)
             if is_out:
